@@ -5,6 +5,8 @@
 From Coq Require Import Extraction ExtrOcamlBasic ExtrOcamlNativeString.
 From Educe.Model Require Import Driver.
 From Educe.Spec Require Import Invalid.
+From Educe.Extract Require Import RunI0.
 Extraction Language OCaml.
 Extraction "model.ml" expand expand_flat expand_alt_errs items_toks flat all_traits trait_name err_name
-  invalid_classes invalid_classes_modulo_gap known_gap.
+  invalid_classes invalid_classes_modulo_gap known_gap
+  model_eq model_cmp model_partial_cmp model_hash.
